@@ -26,6 +26,12 @@ Definition tabs_ok (T : tabs) : bool :=
 Definition tabs_refs_fixed (T : tabs) : bool :=
   forallb (fun k => negb (tab_isref T k) || Nat.eqb (tab_unwrap T k) k) (seq 0 (length (t_isref T))).
 
+(* the catalogue obligation: for every (wrapper key, plain class) pair the harness lists by
+   construction -- wrappers nested to any depth -- the key is not a reference and the live
+   unwrap table sends it to the class itself, not to an intermediate wrapper *)
+Definition tabs_reach (T : tabs) (cat : list (nat * nat)) : bool :=
+  forallb (fun p => negb (tab_isref T (fst p)) && Nat.eqb (tab_unwrap T (fst p)) (snd p)) cat.
+
 Definition kop := op nat nat.
 Definition kout := out nat.
 
